@@ -9,6 +9,7 @@ from ..r_readers import rule_tokenizer_rejections as _rule_tok_rej
 from ..r_alias import rule_retry_flush as _rule_retry_flush
 from ..r_codebooks import rule_cx_radical_lists as _rule_cxr
 from ..r_readers import rule_leniency_scope as _rule_leniency
+from ..r_codebooks import rule_list_regex_items as _rule_listre
 
 LEVEL = 'other'
 EXEMPT = {('_convert', 'create_molecule', 'AtomNotFound'): 'infeasible for the daylight readers: every bond end was just inserted by the same parser '
@@ -35,3 +36,5 @@ def run(ck, repo):
     _rule_retry_flush(ck, repo, 'C03.D5-retry-flush', ['chython.files.daylight.smiles'], 1)
     _rule_cxr(ck, repo, 'C03.D2-cx-radical-lists', ['chython.files.daylight.smiles', 'chython.files.daylight.smarts'])
     _rule_leniency(ck, repo, 'C03.D3-leniency-scope')
+    _rule_listre(ck, repo, 'C03.D2-list-patterns', [('chython.files.daylight.smiles', 'cx_fragments'), ('chython.files.daylight.smiles', 'cx_radicals'),
+                                                   ('chython.files.daylight.smarts', 'cx_radicals')])
